@@ -142,6 +142,45 @@ def h_monotone(ctx):
     ctx.require("more-permissive-never-adds", not (kb - ka), key=key, extra=[list(k) for k in (kb - ka)][:3])
 
 
+def h_lang_inherit(ctx):
+    """Per-language sections override only the keys they set; the rest is inherited from the top level."""
+    which = ctx.pick("config", ("srp", "nesting", "magic-numbers"))
+    lang = ctx.pick("language", ("python", "typescript", "javascript", "rust"))
+    sect_lang = ctx.pick("section_for", ("python", "typescript", "javascript", "rust"))
+    ctx.note("config", which)
+    top_a, top_b = ctx.int("top_a", 1), ctx.int("top_b", 1)
+    ov_a, ov_b = ctx.int("ov_a", 1), ctx.int("ov_b", 1)
+    sets = ctx.pick("section_sets", ("a", "b", "both", "nothing"))
+    has_top_a, has_top_b = ctx.flag("top_has_a"), ctx.flag("top_has_b")
+    if which == "srp":
+        from src.linters.srp.config import SRPConfig as C, DEFAULT_MAX_METHODS_PER_CLASS as DA, DEFAULT_MAX_LOC_PER_CLASS as DB
+        ka, kb = "max_methods", "max_loc"
+    elif which == "nesting":
+        from src.linters.nesting.config import NestingConfig as C, DEFAULT_MAX_NESTING_DEPTH as DA
+        ka, kb, DB = "max_nesting_depth", None, None
+    else:
+        from src.linters.magic_numbers.config import MagicNumberConfig as C
+        ka, kb, DA, DB = "max_small_integer", None, 10, None
+    cfg = {}
+    if has_top_a:
+        cfg[ka] = top_a
+    if kb and has_top_b:
+        cfg[kb] = top_b
+    sec = {}
+    if sets in ("a", "both"):
+        sec[ka] = ov_a
+    if kb and sets in ("b", "both"):
+        sec[kb] = ov_b
+    cfg[sect_lang] = sec
+    c = C.from_dict(cfg, language=lang)
+    applies = sect_lang == lang
+    want_a = ov_a if (applies and ka in sec) else (top_a if has_top_a else DA)
+    ctx.require("threshold-inherits-per-key", Eq(getattr(c, ka), want_a), key=ka, config=which)
+    if kb:
+        want_b = ov_b if (applies and kb in sec) else (top_b if has_top_b else DB)
+        ctx.require("threshold-inherits-per-key", Eq(getattr(c, kb), want_b), key=kb, config=which)
+
+
 class _Orch:
     def __init__(self, config):
         self.config = config
@@ -174,11 +213,14 @@ def h_cli_override(ctx):
         from src.cli.linters.structure_quality import _apply_srp_config_override
         from src.linters.srp.config import SRPConfig
         key = "max_methods" if which.endswith("methods") else "max_loc"
+        other_key = "max_loc" if key == "max_methods" else "max_methods"
         sec = {}
         if has_top:
             sec[key] = file_v
         if ov_lang != "none":
-            sec[ov_lang] = {key: ov_v}
+            content = ctx.pick("override_sets", ("same-key", "other-key-only", "both-keys"))
+            sec[ov_lang] = {"same-key": {key: ov_v}, "other-key-only": {other_key: ov_v},
+                            "both-keys": {key: ov_v, other_key: ov_v}}[content]
         o = _Orch({"srp": sec} if (has_top or ov_lang != "none") else {})
         if key == "max_methods":
             _apply_srp_config_override(o, cli_v, None, False)
@@ -306,6 +348,10 @@ def obligations(tier):
                       "cli.linters.shared.ensure_config_section/set_config_value", "NestingConfig.from_dict", "SRPConfig.from_dict"],
            bounds="CLI value, file value and per-language override value unbounded integers >= 1 (symbolic to the end); forked: option (3), language (4), presence of top-level value, language of the override section (none + 4)",
            timeout=120, workers=4),
+        Ob(name="K2c-language-section-inheritance", engine="pathex", harness=h_lang_inherit,
+           functions=["SRPConfig.from_dict", "NestingConfig.from_dict", "MagicNumberConfig.from_dict"],
+           bounds="top-level and per-language values unbounded integers >= 1 (symbolic to the end); forked: config class (3), file language (4), language of the section (4), keys the section sets, keys the top level sets",
+           timeout=200, workers=8),
         Ob(name="K3-carriers-and-discovery-order", engine="pathex", harness=h_carriers,
            functions=["Orchestrator.__init__ (config discovery)", "linter_config.loader.load_config", "config_parser.parse_config_file/parse_yaml/parse_json/parse_pyproject_toml/_normalize_config_keys",
                       "linter_config.ignore._load_repo_ignores/_parse_config_file", "cli entry: setup_base_orchestrator / handle_linting_error"],
